@@ -411,7 +411,79 @@ func calleeParamTypes(c *ssa.CallCommon, fc *FuncContract, f *ssa.Function) []ty
 }
 
 // applyModifiesAll havocs what the callee's modifies clause names.
+// ghostsMentioned: declared ghost variables that a contract's ensures/sets clauses constrain (outside old()).
+func (x *Exec) ghostsMentioned(fc *FuncContract) map[string]bool {
+	out := map[string]bool{}
+	oldMention := map[string]bool{}
+	var walk func(e *Expr, inOld bool, bound map[string]bool)
+	walk = func(e *Expr, inOld bool, bound map[string]bool) {
+		if e == nil {
+			return
+		}
+		switch e.Kind {
+		case "ident":
+			if _, ok := x.C.Ghosts[e.Name]; ok && !bound[e.Name] {
+				if inOld {
+					oldMention[e.Name] = true
+				} else {
+					out[e.Name] = true
+				}
+			}
+		case "call":
+			io := inOld || e.Name == "old"
+			for _, a := range e.Args {
+				walk(a, io, bound)
+			}
+			return
+		case "forall", "exists", "setof", "let":
+			b2 := map[string]bool{}
+			for k := range bound {
+				b2[k] = true
+			}
+			for _, bv := range e.BVars {
+				b2[bv.Name] = true
+			}
+			if e.Kind == "let" {
+				walk(e.Args[0], inOld, bound)
+				b2[e.Name] = true
+				walk(e.Args[1], inOld, b2)
+				return
+			}
+			for _, a := range e.Args {
+				walk(a, inOld, b2)
+			}
+			return
+		}
+		for _, a := range e.Args {
+			walk(a, inOld, bound)
+		}
+	}
+	for _, c := range fc.Ensures {
+		walk(c.E, false, map[string]bool{})
+	}
+	// a ghost related to its own old() value is being updated; one only observed (no old()) is not
+	for g := range out {
+		if !oldMention[g] {
+			delete(out, g)
+		}
+	}
+	for _, sd := range fc.Sets {
+		out[sd.Name] = true
+	}
+	return out
+}
+
 func (x *Exec) applyModifiesAll(st *State, fc *FuncContract, vars map[string]*Val, pre *State) error {
+	// a ghost variable constrained by the callee's postcondition is (possibly) changed by the call, whether or
+	// not the modifies clause lists it: otherwise an ensures about it could contradict the caller's knowledge
+	for g := range x.ghostsMentioned(fc) {
+		if _, bound := vars[g]; bound {
+			continue
+		}
+		if cur, ok := st.ghost[g]; ok {
+			st.ghost[g] = x.havocLike(cur, "mod."+g)
+		}
+	}
 	if fc.ModAll {
 		x.havocAllHeap(st, "call")
 		// preserved locations keep their pre-call values
